@@ -6,15 +6,19 @@
 verus! {
 
 /// positions the position automaton may be at after reading w
-spec fn reach(re: Regex, w: Seq<Inp>) -> ISet<u32>
+spec fn reach(re: Regex, c: Map<RegexId, DFAId>, w: Seq<Inp>) -> ISet<u32>
     decreases w.len()
 {
-    if w.len() == 0 { s_first(re.arena@, nid(re.root_id)) } else { target(re, reach(re, w.drop_last()), w.last()) }
+    if w.len() == 0 { s_first(re.arena@, nid(re.root_id)) } else { target(re, c, reach(re, c, w.drop_last()), w.last()) }
 }
 
-spec fn pos_accepts(re: Regex, w: Seq<Inp>) -> bool { reach(re, w).contains(re.endmarker_position) }
+spec fn pos_accepts(re: Regex, c: Map<RegexId, DFAId>, w: Seq<Inp>) -> bool { reach(re, c, w).contains(re.endmarker_position) }
 
 /// the transition of state q on the symbol a, if any (a is looked up in the symbol pool)
+spec fn lang_ok(re: Regex, c: Map<RegexId, DFAId>, dfa: DFA) -> bool {
+    forall|w: Seq<Inp>| #[trigger] dfa_accepts(dfa, w) == pos_accepts(re, c, w)
+}
+
 spec fn dfa_step(dfa: DFA, q: u32, a: Inp) -> Option<u32> {
     if exists|i: int| 0 <= i < dfa.inputs@.len() && dfa.inputs@[i] == a {
         let i = choose|i: int| 0 <= i < dfa.inputs@.len() && dfa.inputs@[i] == a;
@@ -38,33 +42,33 @@ spec fn dfa_accepts(dfa: DFA, w: Seq<Inp>) -> bool {
 }
 
 /// lock step: the automaton is in the state numbered reach(w), or stuck exactly when reach(w) is empty
-proof fn lemma_run_tracks_reach(re: Regex, dfa: DFA, sid: Map<ISet<u32>, u32>, w: Seq<Inp>)
-    requires subset_ok(re, dfa, sid)
+proof fn lemma_run_tracks_reach(re: Regex, c: Map<RegexId, DFAId>, dfa: DFA, sid: Map<ISet<u32>, u32>, w: Seq<Inp>)
+    requires subset_ok(re, c, dfa, sid)
     ensures
-        (w.len() == 0 || nonempty(reach(re, w))) ==> sid.contains_key(reach(re, w)) && dfa_run(dfa, w) == Some(sid[reach(re, w)]),
-        !(w.len() == 0 || nonempty(reach(re, w))) ==> dfa_run(dfa, w) is None,
+        (w.len() == 0 || nonempty(reach(re, c, w))) ==> sid.contains_key(reach(re, c, w)) && dfa_run(dfa, w) == Some(sid[reach(re, c, w)]),
+        !(w.len() == 0 || nonempty(reach(re, c, w))) ==> dfa_run(dfa, w) is None,
     decreases w.len()
 {
     if w.len() > 0 {
         let v = w.drop_last();
         let a = w.last();
-        lemma_run_tracks_reach(re, dfa, sid, v);
-        let rv = reach(re, v);
-        let rw = reach(re, w);
-        assert(rw == target(re, rv, a));
+        lemma_run_tracks_reach(re, c, dfa, sid, v);
+        let rv = reach(re, c, v);
+        let rw = reach(re, c, w);
+        assert(rw == target(re, c, rv, a));
         let pool = dfa.inputs@;
         if v.len() == 0 || nonempty(rv) {
             let q = sid[rv];
-            assert(row_ok(re, sid, dfa.transitions@, pool, rv, pool.len() as int));
+            assert(row_ok(re, c, sid, dfa.transitions@, pool, rv, pool.len() as int));
             if exists|i: int| 0 <= i < pool.len() && pool[i] == a {
                 let i = choose|i: int| 0 <= i < pool.len() && pool[i] == a;
-                assert(cell_ok(re, sid, dfa.transitions@[q], pool, rv, i, pool.len() as int));
+                assert(cell_ok(re, c, sid, dfa.transitions@[q], pool, rv, i, pool.len() as int));
             } else {
                 // no position carries a: the target is empty
                 if nonempty(rw) {
                     let h = choose|h: u32| rw.contains(h);
-                    let t = choose|t: u32| #[trigger] step(re, rv, a, t, h);
-                    assert(pool.contains(inp_label(re.input_from_position@[t as int])));
+                    let t = choose|t: u32| #[trigger] step(re, c, rv, a, t, h);
+                    assert(pool.contains(lab(re.input_from_position@[t as int], c)));
                     assert(false);
                 }
             }
@@ -72,7 +76,7 @@ proof fn lemma_run_tracks_reach(re: Regex, dfa: DFA, sid: Map<ISet<u32>, u32>, w
             // stuck before: the empty set has no successors
             if nonempty(rw) {
                 let h = choose|h: u32| rw.contains(h);
-                let t = choose|t: u32| #[trigger] step(re, rv, a, t, h);
+                let t = choose|t: u32| #[trigger] step(re, c, rv, a, t, h);
                 assert(rv.contains(t));
                 assert(false);
             }
@@ -81,12 +85,12 @@ proof fn lemma_run_tracks_reach(re: Regex, dfa: DFA, sid: Map<ISet<u32>, u32>, w
 }
 
 /// the compiled automaton and the position automaton accept the same symbol words
-proof fn lemma_dfa_language(re: Regex, dfa: DFA, sid: Map<ISet<u32>, u32>, w: Seq<Inp>)
-    requires subset_ok(re, dfa, sid)
-    ensures dfa_accepts(dfa, w) == pos_accepts(re, w)
+proof fn lemma_dfa_language(re: Regex, c: Map<RegexId, DFAId>, dfa: DFA, sid: Map<ISet<u32>, u32>, w: Seq<Inp>)
+    requires subset_ok(re, c, dfa, sid)
+    ensures dfa_accepts(dfa, w) == pos_accepts(re, c, w)
 {
-    lemma_run_tracks_reach(re, dfa, sid, w);
-    let r = reach(re, w);
+    lemma_run_tracks_reach(re, c, dfa, sid, w);
+    let r = reach(re, c, w);
     if w.len() == 0 || nonempty(r) {
         let q = sid[r];
         if dfa.accepting_states@.contains(q) {
